@@ -1027,7 +1027,7 @@ def declared_nx(opti):
     return sum(s.numel() for s in adv.symvar() if adv.get_meta(s).type == ca.OPTI_VAR)
 
 
-def build_multi(md):
+def build_multi(md, transcribe=True):
     import casadi as ca
     rockit = B.import_rockit()
     mb = MultiBuilt()
@@ -1072,6 +1072,8 @@ def build_multi(md):
         if md['pobj'] is not None:
             ocp.add_objective(E.to_casadi(md['pobj'], sym_parent))
         ocp.solver('ipopt', {'ipopt.print_level': 0, 'print_time': False, 'ipopt.max_iter': 0, 'ipopt.sb': 'yes'})
+        if not transcribe:
+            return mb
         ocp._transcribed
         aug = ocp._augmented
         for i, b in enumerate(mb.bs):
@@ -1313,3 +1315,482 @@ class C12(Check):
                     self.violation("sol(stage %d).sample differs from that stage's symbolic samples at the solver's vector" % i, {"md": md, "stage": i},
                                    self.features(md, "readback"))
                     return
+
+
+# ---------------------------------------------------------------------------------------------
+def nlp_compare_ocps(ocpA, ocpB, rng, what):
+    """two rockit Ocp objects: same NLP (objective, rows as a multiset), parameter vector, starting point?"""
+    import casadi as ca
+    import numpy as np
+    with B.quiet():
+        ocpA._transcribed
+        ocpB._transcribed
+    oA, oB = ocpA._method.opti, ocpB._method.opti
+    if oA.x.numel() != oB.x.numel():
+        return "%s: %d decision variables vs %d" % (what, oA.x.numel(), oB.x.numel())
+    if oA.p.numel() != oB.p.numel():
+        return "%s: %d parameters vs %d" % (what, oA.p.numel(), oB.p.numel())
+    if oA.ng != oB.ng:
+        return "%s: %d constraint rows vs %d" % (what, oA.ng, oB.ng)
+    FA = ca.Function('nlpA', [oA.x, oA.p], [oA.f, oA.g, oA.lbg, oA.ubg])
+    FB = ca.Function('nlpB', [oB.x, oB.p], [oB.f, oB.g, oB.lbg, oB.ubg])
+
+    def vec(o, e):
+        return ca.DM(o.debug.value(e, o.initial())).full().flatten().tolist() if e.numel() else []
+    with B.quiet():
+        pA, pB, xA0, xB0 = vec(oA, oA.p), vec(oB, oB.p), vec(oA, oA.x), vec(oB, oB.x)
+    if any(abs(a - b_) > 1e-12 * max(1, abs(b_)) for a, b_ in zip(pA, pB)):
+        return "%s: parameter values %s vs %s" % (what, pA, pB)
+    if any(abs(a - b_) > 1e-12 * max(1, abs(b_)) for a, b_ in zip(xA0, xB0)):
+        return "%s: starting point %s vs %s" % (what, xA0, xB0)
+    for _ in range(2):
+        xv = [rng.choice([-2, -1.5, -1, -0.5, 0.5, 1, 1.5, 2]) for _ in range(oB.x.numel())]
+        pv = [rng.choice([0.5, 1, 1.5, 2]) for _ in range(oB.p.numel())]
+        rA = [np.array(v).flatten() for v in FA(xv, pv)]
+        rB = [np.array(v).flatten() for v in FB(xv, pv)]
+        if not (np.all(np.isfinite(rA[0])) and np.all(np.isfinite(rB[0])) and np.all(np.isfinite(rA[1])) and np.all(np.isfinite(rB[1]))):
+            continue
+        if abs(rA[0][0] - rB[0][0]) > 1e-9 * max(1.0, abs(rB[0][0])):
+            return "%s: objective %r vs %r at the same point" % (what, rA[0][0], rB[0][0])
+        for name, a, b_ in (("g", rA[1], rB[1]), ("lbg", rA[2], rB[2]), ("ubg", rA[3], rB[3])):
+            bad = [i for i in range(len(a)) if not (a[i] == b_[i] or abs(a[i] - b_[i]) <= 1e-9 * max(1.0, abs(a[i]), abs(b_[i])))]
+            if bad:
+                return "%s: %s[%d] = %r vs %r at the same point (%d entries differ)" % (what, name, bad[0], a[bad[0]], b_[bad[0]], len(bad))
+    return None
+
+
+def solver_settings(ocp):
+    m = ocp._method
+    return (getattr(m, '_solver', None), repr(sorted((getattr(m, '_solver_options', None) or {}).items())))
+
+
+def accessors(ocp):
+    def names(lst):
+        return [(s.name(), tuple(s.shape)) for s in lst]
+    out = {'states': names(ocp.states), 'qstates': names(ocp.qstates), 'controls': names(ocp.controls), 'algebraics': names(ocp.algebraics),
+           'parameters': {k: names(v) for k, v in ocp.parameters.items() if len(v)},
+           'variables': {k: names(v) for k, v in ocp.variables.items() if len(v)},
+           'x': tuple(ocp.x.shape), 'u': tuple(ocp.u.shape), 'z': tuple(ocp.z.shape), 'nstages': len(ocp._stages)}
+    out['children'] = [accessors_stage(s) for s in ocp._stages]
+    return out
+
+
+def accessors_stage(st):
+    def names(lst):
+        return [(s.name(), tuple(s.shape)) for s in lst]
+    return {'states': names(st.states), 'qstates': names(st.qstates), 'controls': names(st.controls),
+            'variables': {k: names(v) for k, v in st.variables.items() if len(v)}, 'method': type(st._method).__name__,
+            'N': getattr(st._method, 'N', None), 'M': getattr(st._method, 'M', None)}
+
+
+def method_settings(ocp):
+    def one(st):
+        m = st._method
+        d = {'class': type(m).__name__}
+        for k in ('N', 'M', 'intg', 'degree', 'scheme'):
+            if hasattr(m, k):
+                d[k] = repr(getattr(m, k))
+        if hasattr(m, 'time_grid'):
+            g = m.time_grid
+            d['grid'] = type(g).__name__
+            for k in ('_min', '_max', 'localize_t0', 'localize_T', '_growth_factor', 'local'):
+                if hasattr(g, k):
+                    d['grid.' + k] = repr(getattr(g, k))
+        return d
+    return [one(ocp)] + [one(s) for s in ocp._stages]
+
+
+C18_PROF = {'methods': [('ms', 'rk'), ('ms', 'euler'), ('ss', 'rk'), ('dc', 'rk'), ('dc', 'rk'), ('ms', 'next')],
+            'grids': ['uniform', 'geometric', 'geometric_local', 'data', 'free', 'uniform_locT', 'uniform_locT0', 'geometric_locT'],
+            'horizon': ['num', 'freeT', 'freet0', 'freeboth', 'param'], 'obj_kinds': ['at_tf', 'at_t0', 'integral', 'sum', 'sum_plus', 'int_control'],
+            'ncons': (0, 3), 'con_grids': ['control', 'integrator', 'point'], 'offset_prob': 0.3, 'scale_vars': 0.4, 'scale_prob': 0.3, 'minmax_prob': 0.3,
+            'features': {'qstate': 0.5, 'p': 0.6, 'pc': 0.4, 'pcp': 0.3, 'v': 0.5, 'vc': 0.4, 'vcp': 0.3, 'time': 0.8, 'dae': 0.5},
+            'Ns': [1, 2, 3], 'Ms': [1, 2], 'nxs': [1, 2, 3], 'nus': [0, 1, 2], 'degrees': [1, 2, 3, 4], 'horizon_in_signals': 0.3}
+
+
+@register
+class C18(Check):
+    pid = "C18"
+    slices = ["roundtrip-single-stage", "roundtrip-multi-stage", "original-undamaged"]
+    uses_generated = True
+
+    def explanation(self):
+        return ("PARTIAL. theorems (history model, table regenerated from the source): save untranscribes and writes no specification attribute; after "
+                "any history, save, and any further history the original's next solve works on the specification the calls say (save_harmless); given "
+                "that unpickling returns the pickled specification, the loaded object's first solve works on the problem the original's next solve "
+                "works on, wherever in the history save happened (roundtrip). NOT a theorem: byte-level fidelity of pickle + CasADi's serializer — "
+                "that is what the correspondence observes: Ocp.load(save(ocp)) vs a freshly built OCP of the same description and vs the original: "
+                "objective, g, lbg, ubg entry by entry at random points, parameter vector, starting point, solver name and options, method/grid "
+                "settings, accessor lists (names, shapes, order) — for every generated feature mix (all methods and grids, DAE, scaling, all "
+                "parameter/variable kinds, free/parametric horizon, offsets, guesses, bare-symbol placeholders, multi-stage trees with clones) and "
+                "save positions: before transcription, after transcription, after a solve, after a solve followed by a specification change; "
+                "the original re-transcribes to the same NLP and solves afterwards")
+
+    def gen(self):
+        d = G.gen_case(self.rng, C18_PROF)
+        s = G.symbols(d)
+        # bare-symbol placeholders (at_tf of a quadrature state / algebraic / variable) in the objective
+        extra = []
+        if d['nq'] and self.rng.random() < 0.7:
+            extra.append(('at_tf', ('xq', 0)))
+        if s['z'] and self.rng.random() < 0.4:
+            extra.append(('at_tf', s['z'][0]))
+        if s['vcp'] and self.rng.random() < 0.5:
+            extra.append(('at_tf', s['vcp'][0]))
+        if self.rng.random() < 0.4:
+            extra.append(('at_t0', s['x'][0]))
+        for k, e in extra:
+            d['phs'].append((k, e))
+            t = ('*', E.C(G.coef(self.rng)), ('ph', len(d['phs']) - 1))
+            d['obj'] = ('+', d['obj'], t) if d['obj'] is not None else t
+        # a few constant guesses
+        gl = []
+        for i, n in enumerate(d['states']):
+            if self.rng.random() < 0.5:
+                gl.append(('x', i, ('num', [self.rng.randint(-8, 8) / 4.0 for _ in range(n)])))
+        for i, n in enumerate(d['controls']):
+            if self.rng.random() < 0.5:
+                gl.append(('u', i, ('num', [self.rng.randint(-8, 8) / 4.0 for _ in range(n)])))
+        d['initial_list'] = gl
+        return d
+
+    def correspondence(self):
+        self.single_slice()
+        self.multi_slice()
+
+    def roundtrip(self, make, position, label):
+        """make() -> (ocp, extra_edit or None). → error message | None"""
+        rockit = B.import_rockit()
+        ocp = make()
+        ref = make()                 # the same description, never saved: the reference problem
+        fname = "c18_%d.rockit" % self.evaluations
+        with B.quiet():
+            if position in ('after-transcribe', 'after-solve', 'after-solve-edit'):
+                ocp._transcribed
+            if position in ('after-solve', 'after-solve-edit'):
+                for o in (ocp, ref):
+                    try:
+                        o.solve_limited()
+                    except Exception:
+                        pass
+            if position == 'after-solve-edit':
+                for o in (ocp, ref):
+                    o.add_objective(o.at_tf(o.states[0][0]) if len(o.states) else 0 * o.T)
+            set_before = solver_settings(ocp)
+            acc_before = accessors(ocp)
+            meth_before = method_settings(ocp)
+            try:
+                ocp.save(fname)
+            except Exception as ex:
+                return "ocp.save raised (%s): %s: %s" % (position, type(ex).__name__, str(ex)[:200].replace("\n", " "))
+            try:
+                ocp2 = rockit.Ocp.load(fname)
+            except Exception as ex:
+                return "Ocp.load raised (%s): %s: %s" % (position, type(ex).__name__, str(ex)[:200].replace("\n", " "))
+        try:
+            msg = nlp_compare_ocps(ocp2, ref, self.rng, "loaded OCP vs the same problem never saved (%s)" % position)
+        except Exception as ex:
+            return "transcribing the loaded OCP raised (%s): %s: %s" % (position, type(ex).__name__, str(ex)[:200].replace("\n", " "))
+        if msg:
+            return msg
+        if solver_settings(ocp2) != set_before:
+            return "solver settings of the loaded OCP %s differ from the original's %s" % (solver_settings(ocp2), set_before)
+        if method_settings(ocp2) != meth_before:
+            return "method settings of the loaded OCP %s differ from the original's %s" % (method_settings(ocp2), meth_before)
+        acc2 = accessors(ocp2)
+        if acc2 != acc_before:
+            diff = [k for k in acc_before if acc_before[k] != acc2.get(k)]
+            return "accessors of the loaded OCP differ from the original's in %s: %s vs %s" % (diff, {k: acc2.get(k) for k in diff}, {k: acc_before[k] for k in diff})
+        # the original is not damaged: same NLP as the reference, and it still solves
+        try:
+            msg = nlp_compare_ocps(ocp, ref, self.rng, "original after save vs the same problem never saved (%s)" % position)
+        except Exception as ex:
+            return "re-transcribing the original after save raised (%s): %s: %s" % (position, type(ex).__name__, str(ex)[:200].replace("\n", " "))
+        if msg:
+            self.slice_ok["original-undamaged"] = False
+            return msg
+        with B.quiet():
+            try:
+                ocp.solve_limited()
+            except Exception as ex:
+                if "return_status" not in str(ex) and "Maximum" not in str(ex) and "Infeasible" not in str(ex) and "solver" not in str(ex).lower():
+                    self.slice_ok["original-undamaged"] = False
+                    return "solving the original after save raised: %s: %s" % (type(ex).__name__, str(ex)[:200])
+        return None
+
+    POSITIONS = ['before', 'after-transcribe', 'after-solve', 'after-solve-edit']
+
+    def single_slice(self):
+        name = "roundtrip-single-stage"
+        n = 16 if self.tier == 'quick' else 200
+        for it in range(n):
+            desc = self.gen()
+            position = self.POSITIONS[it % 4]
+
+            def make(desc=desc):
+                return B.build(copy.deepcopy(desc), transcribe=False).ocp
+            try:
+                msg = self.roundtrip(make, position, "single")
+            except (ZeroDivisionError, OverflowError):
+                continue
+            self.record_case(desc, True, {"method": desc['method'], "position": position, "states": desc['states'], "algs": desc['algs']})
+            self.count("position:" + position)
+            if msg:
+                self.slice_ok[name] = False
+                self.violation(msg, {"desc": desc, "position": position}, {"kind": "roundtrip", "position": position, "method": desc['method']['kind']})
+                return
+
+    def multi_slice(self):
+        name = "roundtrip-multi-stage"
+        n = 4 if self.tier == 'quick' else 40
+        for it in range(n):
+            md = gen_multi(self.rng)
+            position = self.POSITIONS[it % 3]
+
+            def make(md=md):
+                return build_multi(copy.deepcopy(md), transcribe=False).ocp
+            try:
+                msg = self.roundtrip(make, position, "multi")
+            except (ZeroDivisionError, OverflowError):
+                continue
+            self.evaluations += 1
+            self.signatures.add("multi-%d-%s" % (it, position))
+            self.count("multi-position:" + position)
+            if msg:
+                self.slice_ok[name] = False
+                self.violation(msg, {"md": md, "position": position}, {"kind": "roundtrip-multi", "position": position})
+                return
+
+
+# ---------------------------------------------------------------------------------------------
+def gen_lq(rng, kinds=('ms', 'ss', 'dc', 'dc_dae')):
+    """solver-friendly (convex LQ) OCP in the standard description format"""
+    d = B.default_desc()
+    kind = rng.choice(list(kinds))
+    nx = rng.choice([1, 2, 2])
+    d['states'] = [1] * nx if rng.random() < 0.5 else [nx]
+    d['controls'] = [1]
+    d['params'][''] = [1, 1]          # p0: initial state value, p1: forcing coefficient
+    xs = [('x', i) for i in range(nx)]
+    u = ('u', 0)
+    dae = kind == 'dc_dae'
+    if dae:
+        d['algs'] = [1]
+        z = ('z', 0)
+    ode = []
+    for i in range(nx):
+        e = ('*', E.C(Fr(rng.randint(-4, -1), 2)), xs[i])
+        if nx > 1:
+            e = ('+', e, ('*', E.C(Fr(rng.randint(-2, 2), 2) or Fr(1, 2)), xs[(i + 1) % nx]))
+        if i == nx - 1:
+            e = ('+', e, ('*', E.C(Fr(rng.randint(1, 3), 1)), u))
+        e = ('+', e, ('*', E.C(Fr(rng.randint(1, 4), 4)), ('p', 1)))
+        if dae and i == 0:
+            e = ('+', e, ('*', E.C(Fr(1, 2)), z))
+        ode.append(e)
+    d['ode'] = ode
+    if dae:
+        # 0 = z - (x0 + u/2): linear, index 1
+        d['alg'] = [('-', z, ('+', xs[0], ('*', E.C(Fr(1, 2)), u)))]
+    integrand = ('*', E.C(Fr(rng.randint(1, 4), 2)), ('*', u, u))
+    for x in xs:
+        integrand = ('+', integrand, ('*', E.C(Fr(rng.randint(1, 4), 2)), ('*', x, x)))
+    d['phs'] = [('integral', integrand), ('at_tf', xs[0]), ('at_t0', xs[0])]
+    d['obj'] = ('+', ('ph', 0), ('*', E.C(Fr(rng.randint(1, 3))), ('*', ('ph', 1), ('ph', 1))))
+    d['cons'] = [{'rel': 'eq', 'a': [('ph', 2)], 'b': [('p', 0)], 'grid': 'point'},
+                 {'rel': 'two', 'a': [E.C(-3)], 'b': [u], 'c': [E.C(3)], 'grid': 'control', 'first': True, 'last': False, 'offs': []}]
+    for i in range(1, nx):
+        d['phs'].append(('at_t0', xs[i]))
+        d['cons'].append({'rel': 'eq', 'a': [('ph', len(d['phs']) - 1)], 'b': [E.C(Fr(rng.randint(-2, 2), 2))], 'grid': 'point'})
+    d['t0'] = ('num', Fr(rng.randint(0, 2), 2))
+    d['T'] = ('num', Fr(rng.randint(2, 6), 2))
+    mk = {'ms': 'ms', 'ss': 'ss', 'dc': 'dc', 'dc_dae': 'dc'}[kind]
+    d['method'] = {'kind': mk, 'N': rng.choice([2, 3, 4]), 'M': rng.choice([1, 1, 2]), 'intg': 'rk', 'degree': rng.choice([2, 3]),
+                   'scheme': rng.choice(['radau', 'legendre']), 'grid': {'kind': rng.choice(['uniform', 'uniform', 'geometric']), 'growth': 2, 'local': False}}
+    if d['method']['grid']['kind'] == 'uniform':
+        d['method']['grid'] = {'kind': 'uniform'}
+    if rng.random() < 0.2:
+        d['scale_x'] = [rng.choice([0.5, 2, 4]) for _ in range(nx)]
+        d['scale_u'] = [rng.choice([0.5, 2])]
+    d['lq_kind'] = kind
+    return d
+
+
+@register
+class C19(Check):
+    pid = "C19"
+    level = "other"
+    slices = ["starting-data (max_iter=0)", "converged-results", "unlisted-keep-current"]
+
+    def explanation(self):
+        return ("PARTIAL (solver is a black box). theorems: binding a list of (slot, value) arguments gives every slot of the parameter vector / starting "
+                "point the value the same set_value/set_initial calls give it, last one wins, unlisted slots keep their current value "
+                "(bind_eq_imperative, unlisted_keeps_current, any store); with the sampled states as an argument, node variables and — under "
+                "DirectCollocation — the integrator and helper states of every step (the hidden Xc_vars0 = repmat(X[k])) get exactly the starting "
+                "values set_initial(x, array) gives them in the starting-point model of C10 (state_start_same), other components keep theirs "
+                "(state_start_frame); controls likewise (control_start_same, the imperative loop order included). correspondence: the returned "
+                "casadi.Function vs set_value + set_initial + solve + sample on a fresh OCP of the same description, for random argument values: "
+                "(a) ipopt max_iter=0, where the results expose the data handed to the solver (states, controls, and helper states / algebraics "
+                "at the collocation roots), (b) converged solves of convex LQ problems (1e-6), (c) arguments left out keep values set before "
+                "to_function was called; MS, SS (parameters/controls only), DC, DC with algebraics ('z' argument first and last)")
+
+    def pipeline(self, desc, opts, argspec, argvals, pre):
+        """returns (function outputs, imperative outputs) as lists of flat float lists"""
+        import casadi as ca
+        import numpy as np
+        N = desc['method']['N']
+
+        def results_of(b):
+            o = b.ocp
+            X = ca.vertcat(*[ca.vec(s) for s in b.states])
+            U = ca.vertcat(*[ca.vec(s) for s in b.controls])
+            r = [(X, 'control'), (U, 'control-')]
+            if desc['method']['kind'] == 'dc':
+                r.append((X, 'integrator_roots'))
+                if b.algs:
+                    r.append((ca.vertcat(*[ca.vec(s) for s in b.algs]), 'integrator_roots'))
+            return r
+
+        def prepare(b):
+            with B.quiet():
+                b.ocp.solver('ipopt', opts)
+                for kind, val in pre:
+                    self.apply(b, kind, val, N)
+
+        # A: the function
+        bA = B.build(copy.deepcopy(desc), transcribe=False)
+        prepare(bA)
+        with B.quiet():
+            args = []
+            for kind in argspec:
+                if kind == 'p0':
+                    args.append(bA.params[''][0])
+                elif kind == 'p1':
+                    args.append(bA.params[''][1])
+                elif kind == 'x':
+                    args.append(bA.ocp.sample(ca.vertcat(*[ca.vec(s) for s in bA.states]), grid='control')[1])
+                elif kind == 'u':
+                    args.append(bA.ocp.sample(bA.controls[0], grid='control-')[1])
+                elif kind == 'z':
+                    args.append("z")
+            res = [bA.ocp.sample(e, grid=g)[1] for e, g in results_of(bA)]
+            f = bA.ocp.to_function('f', args, res)
+            outA = f(*[ca.DM(v) for v in argvals])
+            if not isinstance(outA, (list, tuple)):
+                outA = [outA]
+            outA = [np.array(o).flatten(order='F').tolist() for o in outA]
+        # B: the imperative calls
+        bB = B.build(copy.deepcopy(desc), transcribe=False)
+        prepare(bB)
+        with B.quiet():
+            for kind, val in zip(argspec, argvals):
+                self.apply(bB, kind, val, N)
+            try:
+                sol = bB.ocp.solve()
+            except Exception:
+                sol = bB.ocp.non_converged_solution
+            outB = []
+            for e, g in results_of(bB):
+                _, v = sol.sample(e, grid=g)
+                v = np.array(v)
+                # sol.sample returns (time, components): the function returns components x time
+                outB.append(np.array(v).reshape(v.shape[0], -1).flatten(order='C').tolist())
+        return outA, outB
+
+    def apply(self, b, kind, val, N):
+        import casadi as ca
+        import numpy as np
+        o = b.ocp
+        if kind == 'p0':
+            o.set_value(b.params[''][0], float(val))
+        elif kind == 'p1':
+            o.set_value(b.params[''][1], float(val))
+        elif kind == 'x':
+            arr = np.array(val, dtype=float)
+            off = 0
+            for s in b.states:
+                n = s.numel()
+                o.set_initial(s, arr[off:off + n, :] if n > 1 else arr[off, :])
+                off += n
+        elif kind == 'u':
+            o.set_initial(b.controls[0], np.array(val, dtype=float).flatten())
+        elif kind == 'z':
+            # the "z" argument is the algebraic value at the N+1 nodes; a constant guess is used on both sides
+            o.set_initial(b.algs[0], float(np.array(val).flatten()[0]))
+
+    def argvalue(self, kind, desc):
+        import numpy as np
+        N = desc['method']['N']
+        nx = sum(desc['states'])
+        q = lambda: self.rng.randint(-8, 8) / 4.0
+        if kind in ('p0', 'p1'):
+            return self.rng.randint(1, 8) / 4.0
+        if kind == 'x':
+            return [[q() for _ in range(N + 1)] for _ in range(nx)]
+        if kind == 'u':
+            return [[q() for _ in range(N)]]
+        if kind == 'z':
+            c = q()
+            return [[c] * (N + 1)]
+
+    def compare(self, outA, outB, tol):
+        for i, (a, b_) in enumerate(zip(outA, outB)):
+            if len(a) != len(b_):
+                return "result %d has %d entries from the function and %d from the imperative pipeline" % (i, len(a), len(b_))
+            for j, (x, y) in enumerate(zip(a, b_)):
+                if not (abs(x - y) <= tol * max(1.0, abs(x), abs(y))):
+                    return "result %d entry %d: function %r, imperative pipeline %r" % (i, j, x, y)
+        return None
+
+    def correspondence(self):
+        n = 12 if self.tier == 'quick' else 120
+        opts0 = {'ipopt.print_level': 0, 'print_time': False, 'ipopt.max_iter': 0, 'ipopt.sb': 'yes'}
+        optsC = {'ipopt.print_level': 0, 'print_time': False, 'ipopt.tol': 1e-10, 'ipopt.sb': 'yes'}
+        kinds = ['dc_dae', 'ms', 'dc', 'ss']
+        for it in range(n):
+            # stratified: every method kind, every mode; for the DAE kind the 'z' argument first and last in turn
+            kind = kinds[it % 4]
+            desc = gen_lq(self.rng, kinds=(kind,))
+            pool = ['p0', 'p1', 'u'] + ([] if kind == 'ss' else ['x']) + (['z'] if kind == 'dc_dae' else [])
+            mode = ['start', 'unlisted', 'converged'][(it // 4) % 3]
+            argspec = [a for a in pool if a != 'z' and self.rng.random() < 0.75] or ['p0']
+            self.rng.shuffle(argspec)
+            if kind == 'dc_dae':
+                if (it // 4) % 2 == 0:
+                    argspec.insert(0, 'z')
+                else:
+                    argspec.append('z')
+            pre = []
+            if mode == 'unlisted':
+                left = [a for a in pool if a not in argspec]
+                pre = [(a, self.argvalue(a, desc)) for a in left]
+            # parameters need a value in any case
+            for a in ('p0', 'p1'):
+                if a not in argspec and a not in [k for k, _ in pre]:
+                    pre.append((a, self.argvalue(a, desc)))
+            argvals = [self.argvalue(a, desc) for a in argspec]
+            name = {"start": "starting-data (max_iter=0)", "converged": "converged-results", "unlisted": "unlisted-keep-current"}[mode]
+            try:
+                outA, outB = self.pipeline(desc, optsC if mode == 'converged' else opts0, argspec, argvals, pre)
+            except Exception as ex:
+                self.slice_ok[name] = False
+                self.violation("to_function / imperative pipeline raised: %s: %s" % (type(ex).__name__, str(ex)[:300].replace("\n", " ")),
+                               {"desc": desc, "args": argspec, "mode": mode},
+                               {"kind": "exception", "scaled": bool(desc.get('scale_x')), "guess_argument": any(a in ('x', 'u') for a in argspec),
+                                "not_purely_symbolic": "purely symbolic" in str(ex)})
+                if bool(desc.get('scale_x')) and "purely symbolic" in str(ex):
+                    continue      # recorded known finding: keep exploring
+                return
+            self.record_case(desc, True, {"method": desc['method'], "args": argspec, "mode": mode, "kind": kind})
+            self.count("mode:" + mode)
+            self.count("lq:" + kind)
+            for a in argspec:
+                self.count("arg:" + a)
+            if argspec and argspec[0] == 'z':
+                self.count("z-first")
+            msg = self.compare(outA, outB, 1e-6 if mode == 'converged' else 1e-9)
+            if msg:
+                self.slice_ok[name] = False
+                self.violation("to_function(args=%s) differs from set_value/set_initial/solve/sample (%s): %s" % (argspec, mode, msg),
+                               {"desc": desc, "args": argspec, "argvals": argvals, "pre": pre, "mode": mode}, {"kind": "to_function", "mode": mode, "lq": kind})
+                return
